@@ -448,7 +448,7 @@ func init() {
 	register(&property{
 		Meta: propertyMeta{
 			ID:          "C10",
-			Explanation: "(C10-RESET) definite-assignment analysis of Context.Init with reset/Reset inlined by summary: every field of Context and of the embedded responseWriter is assigned on every path before dispatch, except 'router' which is proved request-invariant by who-may-write; adding a field without resetting it fails the check and names the field. (C10-PRISTINE) provenance of each reset value: constant, nil, parameter of Init, address of the context's own writer, or a zero-length re-slice of the field itself; re-sliced fields are never re-sliced beyond their length anywhere in the module. (C10-INIT) ServeHTTP: Get -> Init -> dispatch (C03-POOL); HandleContext: Reset dominates dispatch. (C03-EFF) no request-phase write to package-level or router state, so nothing else survives between requests inside rux. (C10-FRESH) every return of findAllowedMethods is, on every alternative including those that come round a loop, a slice built in that call (append from nil / make), never a slice field of a route or router nor an extension of one. (C08-FACADE, clause 3) every store to Context.Resp stores the address of that same context's own writer: a Copy() that keeps the source's Resp would reach into the pooled context, which by then serves another request. (C10-NOGO) no go statement in the module passes a value whose type reaches *Context to the new goroutine (argument, receiver or captured variable), except the result of Context.Copy(): a goroutine that outlives the handler would write into the context of a later request; zero instances today, a fixture with a leaking and a copying goroutine is analysed in every run.",
+			Explanation: "(C10-RESET) definite-assignment analysis of Context.Init with reset/Reset inlined by summary: every field of Context and of the embedded responseWriter is assigned on every path before dispatch, except 'router' which is proved request-invariant by who-may-write; adding a field without resetting it fails the check and names the field. (C10-PRISTINE) provenance of each reset value: constant, nil, parameter of Init, address of the context's own writer, or a zero-length re-slice of the field itself; re-sliced fields are never re-sliced beyond their length anywhere in the module. (C10-INIT) ServeHTTP: Get -> Init -> dispatch (C03-POOL); HandleContext: Reset dominates dispatch. (C03-EFF) no request-phase write to package-level or router state, so nothing else survives between requests inside rux. (C10-FRESH) every return of findAllowedMethods is, on every alternative including those that come round a loop, a slice built in that call (append from nil / make), never a slice field of a route or router nor an extension of one. (C08-FACADE, clause 3) every store to Context.Resp stores the address of that same context's own writer: a Copy() that keeps the source's Resp would reach into the pooled context, which by then serves another request. (C10-NOGO) no go statement in the module passes a value whose type reaches *Context to the new goroutine (argument, receiver or captured variable), except the result of Context.Copy(): a goroutine that outlives the handler would write into the context of a later request; zero instances today, a fixture with a leaking and a copying goroutine is analysed in every run. (C10-PRISTINE, nil tests) a field whose reset value is a zero-length re-slice of itself is never compared with nil in the module: its length is pristine on a recycled context, its nil-ness is not.",
 			NotDecided:  []string{"state a handler deliberately keeps outside the context (user code)", "equality of the k-th request's outcome with a fresh router's beyond rux's own state (C03/C07 cover shared state)"},
 			Assumptions: []string{"sync.Pool returns either a value previously Put or the result of New", "user handlers do not retain the *Context after the request (documented contract of pooled contexts)"},
 		},
